@@ -66,6 +66,28 @@ def vp_check(group, unit: float, report) -> int:
         ok, obs = False, type(ex).__name__
     if not ok:
         report("VPTensorCost", {"t0": t0.tolist(), "t1": t1.tolist(), "cost": costs, "specified": want, "observed": obs})
+    # spike times given as integer step indices (e.g. straight from torch.nonzero), costs fractional: the same distances
+    if all(float(x * unit).is_integer() for x in list(a) + list(b)):
+        for dt_ in (torch.int64, torch.int32):
+            n += 1
+            i0, i1 = t0.to(dt_), t1.to(dt_)
+            try:
+                got = inferno.victor_purpura_pair_dist(i0, i1, torch.tensor(costs, dtype=torch.float32))
+                want = [rec["d2"] / 2.0 for rec in group]
+                ok = [float(v) for v in got.tolist()] == want
+                obs = got.tolist()
+                if ok:
+                    for rec, q in zip(group, costs):
+                        g1 = inferno.victor_purpura_pair_dist(i0, i1, q)
+                        if tuple(g1.shape) != (1,) or float(g1[0]) != rec["d2"] / 2.0:
+                            ok, obs, want = False, g1.tolist(), rec["d2"] / 2.0
+                            break
+            except Exception as ex:
+                ok, obs = False, type(ex).__name__
+            if not ok:
+                report("VPIntegerTimes", {"t0": i0.tolist(), "t1": i1.tolist(), "dtype": str(dt_), "cost": costs,
+                                          "specified": want, "observed": obs})
+                break
     return n
 
 
@@ -358,5 +380,6 @@ def cont_events(kind: str, params: list[tuple[float, float]], n: int = 256, hd: 
                 m2 = float(np.sum((xs - m1) ** 2 * w))
                 ret.update(mean=0, var=Q, m1r=_q(m1 / m if m else np.nan, bad, "mean")[0],
                            m2r=_q(m2 / v if v else np.nan, bad, "variance")[0])
-        out.append({"op": {"a": kind, "n": n, "hd": hd, "sub": sub, "loc": loc, "scale": scale}, "ret": ret, "st": 0})
+        out.append({"op": {"a": kind, "n": n, "hd": hd, "sub": sub, "loc": loc, "scale": scale,
+                           "narrow": int(kind == "lognormal" and scale < 2.0 ** -6)}, "ret": ret, "st": 0})
     return out
